@@ -28,7 +28,7 @@ func init() {
 				"pipeline limiting is enabled and passes that semaphore on.",
 			NotCovered: "the bound (current <= stop) and liveness over all schedules: they follow from the extracted transition " +
 				"table and the lock/wake-up discipline by an invariant argument that the checker does not mechanise.",
-			Rules: map[string]string{"C18-R15": "tlsConn.Close closes the wrapped (limiter) connection on every path", "C18-R14": "ServerDNS.Start and ServerTLS.Start count their TCP accept loop in the wait group that Shutdown waits for before it releases the worker pool", "C18-R12": "the worker pool of the plain-DNS and DoT servers has no capacity limit, so Submit cannot fail on the accept path and strand a connection with its limiter slot (shared with C01-R9)", "C18-R13": "dnssvc.newListeners passes the configured connection limiter to newListenConfig as it is, for every protocol", "C18-R11": "an accepted connection is handed to its worker or closed on every path; closeListeners closes both listeners unconditionally", "C18-RC": "class rules (error chains, shadowed results, character classes, crossed arguments, pool constructors, array pools, loop completeness, loop-carried buffers, replacing setters, complete clones, Grow arithmetic, pooled-buffer escape, sorted searches, fresh decode targets, per-iteration objects, whole-message copies, codec guards) over the packages this property rests on", "C18-R10": "Shutdown waits for the connections before releasing the worker pool", "C18-R1": "counter transition tables", "C18-R2": "counter state only under counterCond.L",
+			Rules: map[string]string{"C18-R16": "while the limiter's shared mutex (counterCond.L) is held, only the counter, the condition variable, the gauges and the logger are called: no method of the wrapped listener or connection, which may block on a lock of its own while every listener of the limiter waits", "C18-R15": "tlsConn.Close closes the wrapped (limiter) connection on every path", "C18-R14": "ServerDNS.Start and ServerTLS.Start count their TCP accept loop in the wait group that Shutdown waits for before it releases the worker pool", "C18-R12": "the worker pool of the plain-DNS and DoT servers has no capacity limit, so Submit cannot fail on the accept path and strand a connection with its limiter slot (shared with C01-R9)", "C18-R13": "dnssvc.newListeners passes the configured connection limiter to newListenConfig as it is, for every protocol", "C18-R11": "an accepted connection is handed to its worker or closed on every path; closeListeners closes both listeners unconditionally", "C18-RC": "class rules (error chains, shadowed results, character classes, crossed arguments, pool constructors, array pools, loop completeness, loop-carried buffers, replacing setters, complete clones, Grow arithmetic, pooled-buffer escape, sorted searches, fresh decode targets, per-iteration objects, whole-message copies, codec guards) over the packages this property rests on", "C18-R10": "Shutdown waits for the connections before releasing the worker pool", "C18-R1": "counter transition tables", "C18-R2": "counter state only under counterCond.L",
 				"C18-R3": "Broadcast after every state change that can release waiters; no Signal",
 				"C18-R4": "slot taken/released exactly once on every accept/close path", "C18-R8": "Close marks the listener closed and wakes all waiting accepts on every path, also when the underlying listener's Close fails",
 				"C18-R7": "limiter wiring: New builds one shared counter with the configured thresholds; Limit hands every listener that shared counter and condition variable; the limiting ListenConfig wraps every stream listener; dnssvc wraps the listen config whenever a limiter is configured; the YAML thresholds reach New unchanged",
@@ -37,6 +37,10 @@ func init() {
 }
 
 func runC18(c *an.Ctx) {
+	// ---- R16: nothing foreign is called while the limiter's shared mutex is held
+	if n := c18SharedMutexCallFree(c, "C18-R16"); n < 6 {
+		c.Und("C18-R16", "calls under the limiter's shared mutex", token.NoPos, "only %d calls under counterCond.L found in package connlimiter (6 confirmed by reading: two counter updates, Wait, two Broadcasts, the gauges)", n)
+	}
 	// ---- R15: the TLS wrapper's Close always reaches the connection it wraps
 	c.Floor("C18-R15", 1)
 	c18WrapperCloses(c, "C18-R15")
@@ -628,7 +632,8 @@ func c18Close(c *an.Ctx) {
 	decide(c, "C18-R8", "connlimiter.(*limitListener).Close", an.DecideCfg{
 		Dom: an.Domain{"p0.isClosed": an.Bools, "closeerr": an.Bools},
 		Inline: func(f *ssa.Function) bool {
-			return strings.HasPrefix(an.FnKey(f), "connlimiter.(*limitListener).Close$")
+			k := an.FnKey(f)
+			return strings.HasPrefix(k, "connlimiter.(*limitListener).Close$") || strings.HasPrefix(k, "connlimiter.(*limitListener).markClosed")
 		},
 		OnCall: func(it *an.Interp, name string, args []an.AV) (an.AV, bool) {
 			switch {
@@ -959,4 +964,63 @@ func c18WrapperCloses(c *an.Ctx, rule string) {
 	}
 	c.Check(leak == token.NoPos, rule, key, fn.Pos(), "no return is reachable without a Close of the wrapped connection",
 		"the return at "+c.Pos(leak)+" is reached without closing the wrapped connection: the limiter's connection under the TLS wrapper stays open and its slot is never released")
+}
+
+// c18SharedMutexCallFree: the mutex behind counterCond is shared by every
+// listener of one limiter: Accept of each of them, Close of each of their
+// connections and Close of each listener take it.  A call made under it that can
+// block for reasons of its own (Close of the wrapped listener, which takes the
+// listener's own lock) stops all of them: waiters cannot wake up (Wait has to
+// re-acquire the mutex), closing connections cannot give their slots back.  So
+// under counterCond.L only the counter, the condition variable, the gauges and
+// the logger are called.  Returns the number of calls found under the mutex.
+func c18SharedMutexCallFree(c *an.Ctx, rule string) (examined int) {
+	allowed := func(call ssa.CallInstruction) bool {
+		name := an.CalleeName(call)
+		for _, p := range []string{"connlimiter.counter).", "(*sync.Cond).", "(*sync.Mutex).", "(*log/slog.Logger).", "(*sync/atomic."} {
+			if strings.Contains(name, p) {
+				return true
+			}
+		}
+		if call.Common().IsInvoke() {
+			recv := call.Common().Value.Type().String()
+			if strings.HasSuffix(recv, "sync.Locker") || strings.Contains(recv, "prometheus.Gauge") || strings.Contains(recv, "prometheus.Counter") {
+				return true
+			}
+		}
+		if _, isBuiltin := call.Common().Value.(*ssa.Builtin); isBuiltin {
+			return true
+		}
+		return false
+	}
+	for _, fn := range c.AllFns {
+		k := an.FnKey(fn)
+		if fn.Blocks == nil || c.IsTestFile(fn.Pos()) || !c.Prog.InRepo(fn) || !strings.Contains(k, "connlimiter.") {
+			continue
+		}
+		perCallee := map[string]int{}
+		for _, call := range an.Calls(fn) {
+			if _, isDefer := call.(*ssa.Defer); isDefer {
+				continue
+			}
+			if mutexLockKind(call) != "" {
+				continue
+			}
+			held := heldMutexAt(fn, call)
+			if !strings.HasSuffix(held, "counterCond.L") {
+				continue
+			}
+			examined++
+			c.Analysed(k)
+			name := an.CalleeName(call)
+			if call.Common().IsInvoke() {
+				name = call.Common().Value.Type().String() + "." + call.Common().Method.Name()
+			}
+			perCallee[name]++
+			c.Check(allowed(call), rule, fmt.Sprintf("%s: call %d of %s under the shared mutex", k, perCallee[name], name), call.Pos(),
+				"the callee is the counter, the condition variable, a gauge or the logger",
+				fmt.Sprintf("%s is called at %s while %s, the mutex of every listener of the limiter, is held: if it blocks (Close of a listener takes that listener's own lock), no waiter wakes up and no connection gives its slot back", name, c.Pos(call.Pos()), held))
+		}
+	}
+	return examined
 }
